@@ -13,7 +13,7 @@ RULE = ('decks whose universes contain LAT=1 cells: 1-, 2-, 3-D orthogonal and s
         'Streams: monitor (Lean spec lattice rule vs written file), model (Layer-B), helpers (LatticeBounds.indices / '
         'LatticeSpec / parse_ranges vs the Lean model, exhaustive small boxes). Non-trivial = deck has a lattice '
         'with more than one element.')
-NOT_PROVED = []
+NOT_PROVED = ['clipping of lattice elements by the container cell and the composition of 2 or 3 pairs of planes into the base vectors are not stated as theorems (latmodel correspondence + point monitor)']
 ASSUMPTIONS = ['unit cells are bounded by pairs of parallel planes listed pairwise (MCNP requirement)']
 
 
